@@ -1040,4 +1040,57 @@ theorem run_inv (ops : List Op) : ∀ (h : Heap), Inv h → Inv (run h ops) := b
     rw [List.foldl_cons]
     exact ih _ (step_inv h op i)
 
+/-- `(byte_len, byte_cap)` after an operation. -/
+def Res.lenCap {α : Type} : Res α → Option (Nat × Nat)
+  | .ok h _ => some (h.len, h.cap)
+  | .allocErr h => some (h.len, h.cap)
+  | .panic h => some (h.len, h.cap)
+  | .contract h => some (h.len, h.cap)
+  | .stuck => none
+
+theorem cps_empty (fc : Nat) : computePstrSizeLoop fc 0 [] = 0 := by
+  cases fc <;> rfl
+
+theorem cps_bound (fc : Nat) : ∀ (src : List Nat), src.length < fc →
+    computePstrSizeLoop fc 0 src ≤ 16 * src.length := by
+  induction fc with
+  | zero => intro src h; omega
+  | succ fc ih =>
+    intro src h
+    cases src with
+    | nil => rw [cps_nil]; omega
+    | cons b rest =>
+      simp only [List.length_cons] at h
+      by_cases hb : b = 0
+      · subst hb
+        rw [cps_nul, cps_acc]
+        have := ih rest (by omega)
+        simp only [List.length_cons]; unfold heapIndex; omega
+      · rw [cps_seg _ _ _ _ hb, cps_acc, scanFromStart_fst, scanFromStart_snd]
+        cases hf : findNul (b :: rest) with
+        | some idx =>
+          simp only [Option.getD_some]
+          have hs := findNul_some hf
+          have hpos := findNul_cons_pos hb hf
+          simp only [List.length_cons] at hs
+          have := ih ((b :: rest).drop idx) (by rw [List.length_drop]; simp only [List.length_cons]; omega)
+          rw [List.length_drop] at this
+          have hseg : heapIndex (segCells idx) ≤ 16 * idx := by
+            unfold heapIndex segCells; split <;> omega
+          simp only [List.length_cons] at this ⊢
+          omega
+        | none =>
+          simp only [Option.getD_none, List.drop_length]
+          rw [cps_empty]
+          have hseg : heapIndex (segCells (b :: rest).length) ≤ 16 * (b :: rest).length := by
+            simp only [List.length_cons]
+            unfold heapIndex segCells; split <;> omega
+          omega
+
+theorem growUntil_fits (h : Heap) (need : Nat) (hfit : need ≤ h.freeSpace) :
+    growUntil loopFuel h need = .ok h () := by
+  show growUntil (65 + 1) h need = _
+  unfold growUntil
+  rw [if_pos hfit]
+
 end Scryer.Heap
